@@ -23,6 +23,8 @@ def message(n, seed):
 def resolve_len(spec, cap):
     """length spec -> concrete length: ["cap", d] | ["abs", n] | ["pm", k]"""
     kind, v = spec
+    if kind == "mlc":                     # only meaningful for Type 4 (C02)
+        return max(0, min(255 + v, cap))
     if kind == "cap":
         return max(0, cap + v)
     if kind == "pm":                      # per mille of capacity
@@ -67,6 +69,30 @@ def t2t_desc():
         "ctrl": st.lists(ctrl_tlv(), max_size=4),
         "nulls": st.sampled_from([0, 0, 0, 1, 2, 3, 5]),
         "filler": st.sampled_from([0x00, 0x00, 0xFF, 0x5A, 0xFE, 0x03])})
+
+
+def t2t_room():
+    """layouts whose usable room from the NDEF TLV to the end of the data
+    area is right at the 1-byte / 3-byte length format switch (250..262)"""
+    def mk(t):
+        room, filler, extra = t
+        size = (room + 7) // 8
+        return {"kind": "t2t", "size": size, "extra": extra, "ctrl": [],
+                "nulls": size * 8 - room, "filler": filler}
+    return st.tuples(st.integers(250, 262), st.sampled_from([0, 0xFF, 0x5A]),
+                     st.sampled_from([0, 0, 16])).map(mk)
+
+
+def t1t_room():
+    def mk(t):
+        room, filler = t
+        # dynamic memory: bytes 12.. minus the reserved block 104..127
+        total = room + 12 + 24
+        blocks = (total + 7) // 8
+        return {"kind": "t1t", "size": blocks - 1, "extra": 0, "hr1": 0,
+                "ctrl": [], "nulls": blocks * 8 - total, "filler": filler}
+    return st.tuples(st.integers(250, 262),
+                     st.sampled_from([0, 0xFF, 0x5A])).map(mk)
 
 
 def t1t_desc():
